@@ -65,7 +65,9 @@ func OnErrorResumeNextWith[T any](finally ...Observable[T]) func(Observable[T]) 
 			return source
 		}
 
-		finally = append([]Observable[T]{source}, finally...)
+		// A new slice per application: reassigning the captured variadic would make
+		// a second application of the same operator value see the first source too.
+		finally := append([]Observable[T]{source}, finally...)
 
 		return NewUnsafeObservableWithContext(func(subscriberCtx context.Context, destination Observer[T]) Teardown {
 			subscriptions := NewSubscription(nil)
